@@ -249,7 +249,7 @@ impl Check for C05Expr {
     fn strategy(&self, _t: Tier) -> BoxedStrategy<CaseExpr> {
         (vec(any::<u32>(), 0..400), 0u8..7, 0usize..1000)
             .prop_map(|(tape, position, root)| {
-                let mut g = Gen::new(&tape, GenCfg { ill: 6, chars: Chars::Full, wild_numbers: true, exclude: vec!["exec", "trigger"], ..GenCfg::default() });
+                let mut g = Gen::new(&tape, GenCfg { ill: 6, chars: Chars::Full, wild_numbers: true, ctx: true, exclude: vec!["exec", "trigger"], ..GenCfg::default() });
                 let env = Env::top();
                 // stratified roots: every signature is the root of about the same number of cases
                 let si = root % SIGS.len();
